@@ -336,13 +336,23 @@ func (g *SchemaGen) feat(f string) {
 	}
 }
 
+// nearReserved: with probability p an identifier that merely looks like a reserved word (gen_c17b.go) instead of
+// one from the ordinary pool; such identifiers are legal in every position of every profile.
+func (g *SchemaGen) nearReserved(p float64, ordinary string) string {
+	if g.chance(p) {
+		g.feat("near-reserved")
+		return NearReservedIdents[g.pick(len(NearReservedIdents))]
+	}
+	return ordinary
+}
+
 func (g *SchemaGen) anns() sast.Annotations {
 	if g.chance(0.7) {
 		return nil
 	}
 	a := sast.Annotations{}
 	for i := 0; i < 1+g.pick(2); i++ {
-		a[types.Ident(annKeys[g.pick(len(annKeys))])] = types.String(annVals[g.pick(len(annVals))])
+		a[types.Ident(g.nearReserved(0.1, annKeys[g.pick(len(annKeys))]))] = types.String(annVals[g.pick(len(annVals))])
 	}
 	return a
 }
@@ -416,7 +426,7 @@ func (g *SchemaGen) record(sc *genScope, depth int) sast.RecordType {
 	r := sast.RecordType{}
 	n := g.pick(4)
 	for i := 0; i < n; i++ {
-		r[types.String(attrNamesC1617[g.pick(len(attrNamesC1617))])] = sast.Attribute{Type: g.typ(sc, depth), Optional: g.chance(0.3), Annotations: g.anns()}
+		r[types.String(g.nearReserved(0.1, attrNamesC1617[g.pick(len(attrNamesC1617))]))] = sast.Attribute{Type: g.typ(sc, depth), Optional: g.chance(0.3), Annotations: g.anns()}
 	}
 	return r
 }
@@ -427,6 +437,11 @@ func (g *SchemaGen) Schema() *sast.Schema {
 	nNS := g.pick(3)
 	spaces := []string{""}
 	for i := 0; i < nNS; i++ {
+		if g.chance(0.15) { // a namespace one of whose components looks like a reserved word
+			g.feat("near-reserved")
+			spaces = append(spaces, g.nearReservedPath())
+			continue
+		}
 		spaces = append(spaces, nsNames[g.pick(len(nsNames))])
 	}
 	type decl struct {
@@ -450,7 +465,7 @@ func (g *SchemaGen) Schema() *sast.Schema {
 			g.feat("prim-like-ident")
 			return primLikeIdents[g.pick(len(primLikeIdents))]
 		}
-		return goodIdents[g.pick(len(goodIdents))]
+		return g.nearReserved(0.12, goodIdents[g.pick(len(goodIdents))])
 	}
 	for _, ns := range spaces {
 		if decls[ns] != nil {
@@ -492,7 +507,7 @@ func (g *SchemaGen) Schema() *sast.Schema {
 		}
 		usedA := map[string]bool{}
 		for i := 0; i < g.pick(4); i++ {
-			n := actionNames[g.pick(len(actionNames))]
+			n := g.nearReserved(0.1, actionNames[g.pick(len(actionNames))])
 			if !usedA[n] {
 				usedA[n] = true
 				d.acts = append(d.acts, n)
